@@ -224,3 +224,22 @@ def t9(ctx):
 
 
 RULES.append(t9)
+
+
+@rule("T10", doc="find_id follows the whole union-find chain (it goes through the chasing / compressing accessor, not a single table read); extraction canonicalises the whole invocation (C06.X5)")
+def t10(ctx):
+    crate = ctx.lib()
+    fs = crate.method("egraph::EGraph", "find_id")
+    if len(fs) != 1:
+        raise mir.AnchorMissing("EGraph::find_id")
+    b = mir.accessor_view(crate, fs[0])
+    r = b.role_of_local(0)
+    chased = any(isinstance(x, tuple) and x[0] == "call" and (x[1] in ("unionfind_get", "proven_unionfind_get", "find_applied_id", "proven_find_applied_id", "proven_proven_find_applied_id") or "unionfind_get" in x[1]) for x in role_walk(r))
+    direct = any(isinstance(x, tuple) and x[0] == "call" and x[1] in ("index", "get") and x[3] and role_mentions_field(x[3][0], "unionfind") for x in role_walk(r))
+    ctx.check(chased and not direct, "find-id-chases", "find_id returns the id of the chased (and compressed) union-find entry",
+              "EGraph::find_id returns %s: a single read of the union-find table. After I was merged into J and J into K (no compressing find on I in between) it answers J, a dead class — analysis_data(I) then returns J's stale datum and equal classes disagree" % role_str(r)[:120], where_of(fs[0]))
+    from . import c06
+    c06.x5(ctx)
+
+
+RULES.append(t10)
